@@ -146,6 +146,26 @@ def main(ctx):
     for i in range(300 if ctx.quick else 6000):
         r = fixed if i % 2 == 0 else rng
         progs.append(("shared-structure", SPROBE % dag_value(r)))
+    # what parse builds are ordinary arrays and objects: the same script operations afterwards give the same keys, values and text
+    OPS = ["o.zz = 1;", "delete o[K];", "o[K] = 'again';", "delete o[K]; o[K] = 'moved';", "Object.defineProperty(o, 'acc', {get: function () { return 7; }, enumerable: true, configurable: true});",
+           "Object.defineProperty(o, K, {get: function () { return 'G'; }, set: function (v) { }, enumerable: true, configurable: true});", "Object.assign(o, {m: 1, zz: 2});",
+           "Object.defineProperty(o, 'dv', {value: [1], writable: true, enumerable: true, configurable: true});", "o.n1 = {x: o[K]};", "for (var q in o) { o[q] = [o[q]]; }",
+           "Object.keys(o).forEach(function (q) { if (q !== K) { delete o[q]; } });", "a.push(o);", "a.length = 0;", "a[0] = 'x';", "a.reverse();", "a.sort();", "a.unshift(null);", "a.splice(0, 1, 'sp');",
+           "a.x = 1;", "o.arr = a; a = o.arr;", "o.hasOwnProperty = 1;", "o['constructor'] = 2;", "o.length = 3;"]
+    OBJ_PROBE = ("(function () { var v; try { v = JSON.parse(%s); } catch (e) { return 'rejected'; } var o = null, a = null;\n"
+                 "(function find(x) { if (x === null || typeof x !== 'object') { return; } if (Array.isArray(x)) { if (a === null) { a = x; } x.forEach(find); } else { if (o === null) { o = x; } for (var k in x) { find(x[k]); } } })(v);\n"
+                 "if (o === null) { o = {}; } if (a === null) { a = []; } var K = Object.keys(o)[0]; if (K === undefined) { K = 'nokey'; }\n"
+                 "try { %s } catch (e) { return ['op-threw', e && e.name]; }\n"
+                 "var fi = []; for (var k2 in o) { fi.push(k2); }\n"
+                 "function text(x) { try { return JSON.stringify(x); } catch (e) { return 'threw:' + e.name; } }\n"
+                 "return [text(v), text(o), Object.keys(o), fi, Object.values(o).length, text(a), a.length, K in o, Object.prototype.hasOwnProperty.call(o, K), o.acc, typeof o.zz]; })()")
+    for i in range(1200 if ctx.quick else 20000):
+        r = fixed if i % 2 == 0 else rng
+        t = r.choice(texts[: len(texts) // 2]) if r.random() < 0.5 else gen_text(r, r.randint(1, 3))
+        if "__proto__" in t:
+            continue
+        ops = " ".join(r.choice(OPS) for _ in range(r.randint(1, 4)))
+        progs.append(("parsed-value-ordinary", OBJ_PROBE % (json.dumps(t), ops)))
     progs += [("args", "JSON.stringify({a: [1, {b: 2}]}, null, 2)"), ("args", "JSON.stringify({a: 1, b: 2}, ['a'])"), ("args", "JSON.stringify({a: 1}, function (k, v) { return typeof v === 'number' ? v + 1 : v; })"),
               ("args", "JSON.parse('{\"a\": 1}', function (k, v) { return typeof v === 'number' ? v * 2 : v; }).a"), ("args", "JSON.stringify('x', null, '--')"), ("args", "JSON.stringify([1], null, 20).length"),
               ("args", "JSON.stringify()"), ("args", "(function () { try { return JSON.parse(); } catch (e) { return e.name; } })()"), ("args", "JSON.parse(' 1 ')"), ("args", "JSON.parse(1)"),
